@@ -252,6 +252,8 @@ class Ctx:
     def write_replay(self, obj, tag):
         os.makedirs(os.path.join(VERIF, "replays"), exist_ok=True)
         p = os.path.join(VERIF, "replays", "%s_%s_seed%d.json" % (self.pid, tag, self.seed))
+        obj = dict(obj, seed=self.seed, tier=self.tier,
+                   rerun="VERIF_SEED=%d ./check %s --tier %s" % (self.seed, self.pid, self.tier))
         with open(p, "w") as f:
             json.dump(obj, f, indent=1, default=str)
         return p
@@ -333,7 +335,17 @@ def main(run, pid):
     ap.add_argument("--replay", default=None)
     a = ap.parse_args(sys.argv[2:] if len(sys.argv) > 1 and sys.argv[1] == pid else sys.argv[1:])
     seed = int(os.environ.get("VERIF_SEED", "0") or 0)
-    ctx = Ctx(pid, a.tier if a.tier in ("quick", "thorough") else "quick", seed)
+    tier = a.tier if a.tier in ("quick", "thorough") else "quick"
+    if a.replay:
+        # replay = re-run the check with the recorded seed and tier; the recorded failing inputs are printed first
+        try:
+            rp = json.load(open(a.replay))
+            seed, tier = int(rp.get("seed", seed)), rp.get("tier", tier)
+            print("REPLAY of %s (seed %d, tier %s): %s" % (a.replay, seed, tier, json.dumps(rp.get("failures", rp.get("broken_obligations", [])))[:4000]))
+        except Exception as e:
+            print("INFRA: cannot read replay file: %s" % e, file=sys.stderr)
+            sys.exit(2)
+    ctx = Ctx(pid, tier, seed)
     ctx.replay = a.replay
     try:
         run(ctx)
